@@ -122,8 +122,8 @@ pub fn run_cross_convertible(seed: u64, count: usize, out: &mut dyn Write) {
                 T::Enum => Variant::EnumItem(EnumItem { ty: "Verif".to_string(), value: rng.gen_range(0..6) }),
                 T::ContentId => Variant::Content(match rng.gen_range(0..3) {
                     0 => Content::none(),
-                    1 => Content::from_uri(""),
-                    _ => Content::from_uri(["rbxassetid://5", "http://x/?a=1&b=<2>"][rng.gen_range(0..2)]),
+                    1 => gen::content_uri(""),
+                    _ => gen::content_uri(["rbxassetid://5", "http://x/?a=1&b=<2>"][rng.gen_range(0..2)]),
                 }),
                 T::Tags => Variant::BinaryString([&b""[..], b"alpha", b"alpha\0beta gamma\0\xc3\xa9"][rng.gen_range(0..3)].to_vec().into()),
                 _ => Variant::Int32(gen::BRICK_NUMBERS[rng.gen_range(0..gen::BRICK_NUMBERS.len())] as i32),
